@@ -8,7 +8,9 @@ One run = one model history built in several WORLDS:
   * as SIBLING worlds in which exactly one revision differs from the base history in
     exactly one attested field (one file's content / name / directory / exec bit / kind /
     file id, a symlink target, an added or removed entry, message, committer, timestamp,
-    timezone, parent list, a revision property's name or value, an added property) - same
+    timezone, parent list, a revision property's name or value, an added property, and whitespace-only
+    changes of a message line or property value line: trailing / leading blanks or tabs,
+    a blank-only line) - same
     revision id, everything else equal;
   * as COPIES made by fetching a native world into another repository (same or other
     format), tip by tip in a seeded order, optionally packed.
@@ -39,7 +41,7 @@ COMPONENTS = {
 ASSUMPTIONS = [
     "sensitivity is covered only as far as the sibling commits reach: one perturbation per sibling world, drawn from a fixed list of single-field changes; it is not a proof that every field change alters the text",
     "what a class attests is taken from the format definitions in testament.py: version 1 (Testament) lists kind, path, file id and text sha1 / symlink target but NOT the executable bit and not last-changed revisions; StrictTestament adds last-changed revision and executable flag; StrictTestament3 adds the root entry; so an exec-bit-only sibling must leave the version-1 text EQUAL and change the strict texts",
-    "parents are attested as a sorted set (format definition: 'parents given in lexicographical order'); message and property values are attested line by line (splitlines), timestamps as whole seconds: differences only in parent order, line terminators/trailing newline or sub-second time are never generated and therefore not judged",
+    "parents are attested as a sorted set (format definition: 'parents given in lexicographical order'); message and property values are attested line by line (splitlines), timestamps as whole seconds: differences only in parent order, a trailing newline or sub-second time are never generated and therefore not judged; whitespace inside a line (leading, trailing, blank-only lines) IS attested and siblings differing only there must differ; carriage returns cannot be committed (the commit builder rejects them) and are not generated",
     "StrictTestament3 (root included) is compared only between worlds that hold native rich-root data (2a, rich-root-pack and rich->rich copies): a non-rich-root repository has no last-changed revision for its root and a rich-root upgrade synthesises one",
     "last-changed revisions inside strict testaments are predicted by the C02 per-file model",
 ]
@@ -48,6 +50,10 @@ NATIVE = ["2a", "pack-0.92", "rich-root-pack"]
 RICH = {"2a": True, "pack-0.92": False, "rich-root-pack": True, "1.9": False, "1.9-rich-root": True}
 COMMITTERS = ["Sim User <sim@example.com>", "Other Person <other@example.org>", "Zoë Ünicode <z@example.com>"]
 FIELDS = ["content", "name", "dir", "exec", "symlink_target", "kind", "file_id", "add_entry", "del_entry", "message", "committer", "timestamp", "timezone", "parents", "prop_value", "prop_name", "prop_add"]
+# whitespace-only perturbations of the free-text fields (a line keeps its words)
+# (a CR cannot be committed: CommitBuilder._validate_unicode_text rejects messages and properties with "\r")
+WS_FIELDS = ["msg_trailing_ws", "msg_leading_ws", "msg_blank_line_ws", "prop_trailing_ws", "prop_leading_ws"]
+WS = [" ", "\t", "   ", " \t", "\t\t "]
 
 
 def warm():
@@ -152,6 +158,38 @@ def perturb(rng, mh, specs, idx, field):
         s["props"][k + "-sib"] = s["props"].pop(k)
     elif field == "prop_add":
         s["props"]["sibling-prop"] = "yes"
+    elif field in ("msg_trailing_ws", "msg_leading_ws"):
+        lines = s["msg"].split("\n")
+        full = [i for i, l in enumerate(lines) if l.strip()]
+        if not full:
+            return None
+        i = rng.choice([full[0], full[-1], rng.choice(full)])
+        lines[i] = lines[i] + rng.choice(WS) if field == "msg_trailing_ws" else rng.choice(WS) + lines[i]
+        s["msg"] = "\n".join(lines)
+    elif field == "msg_blank_line_ws":
+        lines = s["msg"].split("\n")
+        blank = [i for i, l in enumerate(lines[:-1]) if l == ""]
+        if blank:
+            lines[rng.choice(blank)] = rng.choice(WS)
+        else:
+            lines.append(rng.choice(WS))  # a last line made of blanks only
+        s["msg"] = "\n".join(lines)
+    elif field == "msg_crlf":
+        # same lines, other line terminator: the line-based text must stay EQUAL
+        at = [i for i, c in enumerate(s["msg"]) if c == "\n" and i + 1 < len(s["msg"]) and s["msg"][i - 1 : i] != "\r"]
+        if not at:
+            return None
+        i = rng.choice(at)
+        s["msg"] = s["msg"][:i] + "\r\n" + s["msg"][i + 1 :]
+    elif field in ("prop_trailing_ws", "prop_leading_ws"):
+        keys = sorted(k for k in s["props"] if k != "branch-nick" and s["props"][k].strip())
+        if not keys:
+            return None
+        k = rng.choice(keys)
+        lines = s["props"][k].split("\n")
+        i = rng.randrange(len(lines))
+        lines[i] = lines[i] + rng.choice(WS) if field == "prop_trailing_ws" else rng.choice(WS) + lines[i]
+        s["props"][k] = "\n".join(lines)
     else:
         return None
     if not ft_valid(tree):
@@ -177,6 +215,9 @@ def generate(rng, tier):
     fields = rng.sample(FIELDS, rng.randint(3, 5))
     if "exec" not in fields and rng.random() < 0.3:
         fields[0] = "exec"  # the only perturbation that only the strict classes attest
+    for _ in range(rng.choice([0, 1, 1, 2])):
+        fields.insert(0, rng.choice(WS_FIELDS))
+    fields = fields[:5]
     for field in fields:
         for _ in range(4):
             idx = rng.randrange(len(specs))
